@@ -230,7 +230,7 @@ func (e *Engine) reflectIntrinsic(name string, fn *ssa.Function, a []Val) (Val, 
 			// the size hint pre-allocates buckets: an allocation like any other
 			e.allocGuard(e.tf.Resize(a[1].(*Term), 64, true), 16)
 		}
-		return RV{t: t, v: &MapObj{epoch: e.epoch, kt: t.Underlying().(*types.Map).Key()}}, true
+		return RV{t: t, v: &MapObj{epoch: e.epoch, kt: t.Underlying().(*types.Map).Key(), vt: t.Underlying().(*types.Map).Elem()}}, true
 	case "reflect.Append":
 		r := a[0].(RV)
 		s, ok := e.rvGet(r).(Slice)
@@ -562,6 +562,28 @@ func (e *Engine) reflectTypeMethod(rt RT, m string, a []Val) Val {
 		return e.K(64, uint64(t.Underlying().(*types.Array).Len()))
 	case "String":
 		return e.stringVal(t.String())
+	case "NumIn", "NumOut", "In", "Out", "IsVariadic":
+		sig, ok := t.Underlying().(*types.Signature)
+		if !ok {
+			e.goPanic("reflect: %s of non-func type %v", m, t)
+		}
+		switch m {
+		case "NumIn":
+			return e.K(64, uint64(sig.Params().Len()))
+		case "NumOut":
+			return e.K(64, uint64(sig.Results().Len()))
+		case "IsVariadic":
+			return e.KB(sig.Variadic())
+		}
+		tup := sig.Params()
+		if m == "Out" {
+			tup = sig.Results()
+		}
+		i := int(a[0].(*Term).C)
+		if i < 0 || i >= tup.Len() {
+			e.goPanic("reflect: Func index out of bounds")
+		}
+		return e.rtypeIface(tup.At(i).Type())
 	case "Size":
 		return e.K(64, uint64(e.sizes.Sizeof(t)))
 	case "Align", "FieldAlign":
